@@ -34,12 +34,12 @@ def run(tier: str, seed: int, replay=None) -> int:
         ],
         "design": ([("SNLifeMC_struct_quick", True, 0, "struct"), ("SNLifeMC_reuse_quick", True, 0, "reuse"),
                     ("SNLifeMC_multi_quick", True, 0, "multi"), ("SNLifeMC_big_quick", True, 200, "big12"),
-                    ("SNLifeMC_names_quick", True, 200, "names")] if q else
+                    ("SNLifeMC_names_quick", True, 200, "names"), ("SNLifeMC_fork_quick", True, 300, "fork")] if q else
                    [("SNLifeMC_struct_thorough", True, 0, "struct"), ("SNLifeMC_reuse_thorough", True, 0, "reuse"),
                     ("SNLifeMC_multi_thorough", True, 4000, "multi"), ("SNLifeMC_big_thorough", True, 2500, "big12"),
-                    ("SNLifeMC_big11_thorough", True, 1500, "big11"), ("SNLifeMC_names_thorough", True, 2000, "names"),
+                    ("SNLifeMC_big11_thorough", True, 1500, "big11"), ("SNLifeMC_names_thorough", True, 2000, "names"), ("SNLifeMC_fork_thorough", True, 4000, "fork"),
                     ("SNLifeMC_ref_thorough", False, 0, "ref")]),
-        "sanity": ["SNLifeMC_pinned_export"],
+        "sanity": ["SNLifeMC_pinned_export", "SNLifeMC_fork_shared"],
         "n_random": 120 if q else 3000,
         "procs": 8,
     }
